@@ -34,6 +34,7 @@ import (
 	"sync/atomic"
 	"time"
 
+	"github.com/hydraide/hydraide/app/core/hydra/swamp"
 	"github.com/hydraide/hydraide/app/core/hydra/swamp/vigil"
 	"github.com/hydraide/hydraide/app/name"
 	"github.com/hydraide/hydraide/app/verifhook"
@@ -583,11 +584,45 @@ func c17Rpcs() string {
 			note(r, e)
 		}
 	}
+	// a Delete that empties a swamp: the swamp method gives the handler's vigil back itself and destroys
+	// the instance; the handler's deferred CeaseVigil then runs once more on the dead instance
+	dead := "unknown"
+	{
+		sw2 := name.New().Sanctuary("c17").Realm("handlers").Swamp("two")
+		r, e := rig.GW.PatchTreasures(ctx, &hydrapb.PatchTreasuresRequest{IslandID: 1, SwampName: sw2.Get(), CreateIfNotExist: true,
+			Patches: []*hydrapb.TreasurePatch{{Key: "only", Ops: []*hydrapb.PatchOp{{Op: hydrapb.PatchOp_SET, Path: "a", Value: val}}}}})
+		if r == nil {
+			note(nil, e)
+		} else {
+			note(r, e)
+		}
+		if inst, err := rig.Zeus.GetHydra().SummonSwamp(ctx, 1, sw2); err == nil {
+			fin := make(chan struct{})
+			go func() {
+				d, e := rig.GW.Delete(ctx, &hydrapb.DeleteRequest{Swamps: []*hydrapb.DeleteRequest_SwampKeys{{IslandID: 1, SwampName: sw2.Get(), Keys: []string{"only"}}}})
+				if d == nil {
+					note(nil, e)
+				} else {
+					note(d, e)
+				}
+				close(fin)
+			}()
+			select {
+			case <-fin:
+				dead = strconv.FormatInt(swamp.VerifVigilCount(inst), 10)
+			case <-time.After(3 * time.Second):
+				// the handler is stuck in Destroy's drain, waiting for its own vigil
+				dead = "hang"
+				inst.CeaseVigil()
+				<-fin
+			}
+		}
+	}
 	sys := rig.Zeus.GetSafeops().SystemLocked()
 	vig := "unknown"
 	if s, err := rig.Zeus.GetHydra().SummonSwamp(ctx, 1, sw); err == nil {
 		vig = strconv.FormatBool(s.HasActiveVigils())
 	}
 	_ = nils
-	return fmt.Sprintf("rpcs calls=%d sys=%v vig=%s", calls, sys, vig)
+	return fmt.Sprintf("rpcs calls=%d sys=%v vig=%s vigdead=%s", calls, sys, vig, dead)
 }
